@@ -82,6 +82,15 @@ func c15Batch(c *caseCtx, addr string, maxLen int) (items []wireItem, ids []stri
 		actor.NewPID("ab", "c"), actor.NewPID("a", "bc"), nil, actor.NewPID("", "noaddr"), actor.NewPID("onlyaddr", "")}
 	sPool := 1 + r.Intn(len(senders))
 	n := 1 + r.Intn(maxLen)
+	big := 0
+	if maxLen <= 64 {
+		switch r.Intn(40) {
+		case 0:
+			n = 1025 + r.Intn(2200) // longer than the writer's nominal batch size
+		case 1:
+			big = 2 + r.Intn(3) // a few payloads of more than a megabyte: the envelope exceeds the default 4 MiB read buffer's comfort zone
+		}
+	}
 	pBad := pick(r, 0, 0, 10, 30)
 	nBad := 0
 	for i := 0; i < n; i++ {
@@ -93,9 +102,12 @@ func c15Batch(c *caseCtx, addr string, maxLen int) (items []wireItem, ids []stri
 		if !ok {
 			nBad++
 		}
+		if big > 0 && i%5 == 1 && i/5 < big {
+			msg, ok, k = &remote.TestMessage{Data: make([]byte, 1100*1024+i)}, true, pkTest
+		}
 		items = append(items, wireItem{target: targets[r.Intn(len(targets))], sender: senders[r.Intn(sPool)], msg: msg, ok: ok, kind: k})
 	}
-	desc = fmt.Sprintf("batch len=%d targets=%d ambiguousTargets=%v senderPool=%d unserialisable=%d", n, nT, ambiguousT, sPool, nBad)
+	desc = fmt.Sprintf("batch len=%d targets=%d ambiguousTargets=%v senderPool=%d unserialisable=%d bigPayloads=%d", n, nT, ambiguousT, sPool, nBad, big)
 	return
 }
 
